@@ -221,6 +221,21 @@ def _menu():
     add("genemetrics", "bins", ["cnr"], lambda w, p: reports.do_genemetrics(w["cnr"], threshold=0.2, min_probes=3))
     add("genemetrics", "segments", ["cnr", "cns"],
         lambda w, p: reports.do_genemetrics(w["cnr"], w["cns"], threshold=0.2, min_probes=2))
+    # every sex-option branch (X shifted up, down, or left alone) of the gene reports
+    for female, malref in ((True, False), (True, True), (False, True)):
+        tag = f"female{int(female)}-malref{int(malref)}"
+        add("genemetrics", "bins-" + tag, ["cnr"],
+            lambda w, p, female=female, malref=malref: reports.do_genemetrics(
+                w["cnr"], threshold=0.2, min_probes=3, is_haploid_x_reference=malref, is_sample_female=female))
+        add("genemetrics", "segments-" + tag, ["cnr", "cns"],
+            lambda w, p, female=female, malref=malref: reports.do_genemetrics(
+                w["cnr"], w["cns"], threshold=0.2, min_probes=2, is_haploid_x_reference=malref, is_sample_female=female))
+        add("call", "clonal-" + tag, ["cns", "thresholds"],
+            lambda w, p, female=female, malref=malref: call.do_call(
+                w["cns"], method="clonal", purity=0.8, is_haploid_x_reference=malref, is_sample_female=female,
+                thresholds=w["thresholds"]))
+        add("export_vcf", tag, ["cns"],
+            lambda w, p, female=female, malref=malref: export.export_vcf(w["cns"], 2, malref, None, female))
     add("breaks", "min1", ["cnr", "cns"], lambda w, p: reports.do_breaks(w["cnr"], w["cns"], 1))
     add("bintest", "a05", ["cnr", "cns"], lambda w, p: bintest.do_bintest(w["cnr"], w["cns"], alpha=0.05))
     add("metrics", "one", ["cnr", "cns"], lambda w, p: metrics.do_metrics(w["cnr"], w["cns"]))
